@@ -533,6 +533,9 @@ func TestC11(t *testing.T) {
 		}
 		fam[c.Family]++
 	}
+	if ReplayFile() == "" {
+		evals += runCarry(t, &viol)
+	}
 	ex := "(ConditionalExpiry, LogRecoveryExpiry)"
 	metaF.Write(t, dir, "cases.v", "ms_case", [][2]string{
 		{"mism", "find_idx (ms_mism " + ex + ") cases"},
